@@ -4,6 +4,7 @@ package main
 // build SSA for everything (dependencies included).
 
 import (
+	"encoding/json"
 	"fmt"
 	"go/types"
 	"os"
@@ -81,6 +82,19 @@ func loadWorld(extraOverlay map[string][]byte, patterns []string) (*World, error
 	}
 	for k, v := range extraOverlay {
 		ov[k] = v
+	}
+	if p := os.Getenv("GOSYM_EXTRA_OVERLAY"); p != "" {
+		var m map[string]string
+		if b, err := os.ReadFile(p); err == nil && json.Unmarshal(b, &m) == nil {
+			for virt, real := range m {
+				if c, err := os.ReadFile(real); err == nil {
+					ov[virt] = c
+				}
+			}
+		}
+	}
+	if p := os.Getenv("GOSYM_PATTERNS"); p != "" && len(patterns) == 0 {
+		patterns = strings.Fields(p)
 	}
 	cfg := &packages.Config{Mode: packages.LoadAllSyntax, Dir: repoDir, Overlay: ov,
 		Env: append(os.Environ(), "GOFLAGS=-mod=mod", "GOPROXY=off", "GOSUMDB=off", "GOTOOLCHAIN=local")}
